@@ -24,6 +24,11 @@
 (*  otherNs     a declaration of ANOTHER namespace (xmlns:xlink=...) on    *)
 (*              the root: "none" | "after" | "before" the MathML           *)
 (*              declaration                                                *)
+(*  emptyTok    how a token element WITHOUT text is written: "bare"        *)
+(*              (<mi></mi>) | "space" | "ref" (&#x20;) | "comment" | "pi"  *)
+(*              - inside a token, white space is trimmed and comments and  *)
+(*              processing instructions are no content: all five are the   *)
+(*              empty token                                                *)
 (***************************************************************************)
 EXTENDS Naturals, Sequences, FiniteSets, TLC, Json
 CONSTANTS EntityRegexAllowsDigits,    \* TRUE: &([a-zA-Z0-9]+?); (the code since the fix); FALSE: pinned commit &([a-zA-Z]+?);
@@ -33,9 +38,9 @@ CONSTANTS EntityRegexAllowsDigits,    \* TRUE: &([a-zA-Z0-9]+?); (the code since
 Entities == {"raw", "named", "named-with-digit", "dec", "hex"}
 Spellings == [entity : Entities \cup {"unknown-name"}, prefix : {"none", "m", "mml"}, space : BOOLEAN, comment : BOOLEAN, pi : BOOLEAN,
               quote : {"single", "double"}, mjx : {"none", "v2", "v3"}, lookalike : {"none", "class", "prefix"},
-              defaultDecl : BOOLEAN, otherNs : {"none", "after", "before"}]
+              defaultDecl : BOOLEAN, otherNs : {"none", "after", "before"}, emptyTok : {"bare", "space", "ref", "comment", "pi"}]
 Base == [entity |-> "raw", prefix |-> "none", space |-> FALSE, comment |-> FALSE, pi |-> FALSE, quote |-> "single", mjx |-> "none", lookalike |-> "none",
-         defaultDecl |-> FALSE, otherNs |-> "none"]
+         defaultDecl |-> FALSE, otherNs |-> "none", emptyTok |-> "bare"]
 
 (* What the XML infoset of a spelling is (what an XML processor that knows the named entities would see), as far as MathCAT is
    concerned: the character, the local element names, the token text, and no MathJax bookkeeping. *)
@@ -76,10 +81,13 @@ Next == \/ \E v \in Entities \cup {"unknown-name"} : Rewrite("entity", v)
         \/ \E v \in {"none", "class", "prefix"} : Rewrite("lookalike", v)
         \/ \E v \in BOOLEAN : sp.prefix = "none" /\ Rewrite("defaultDecl", v)
         \/ \E v \in {"none", "after", "before"} : Rewrite("otherNs", v)
+        \/ \E v \in {"bare", "space", "ref", "comment", "pi"} : Rewrite("emptyTok", v)
 Spec == Init /\ [][Next]_<<sp, n>>
 
 \* spellings of one document (same infoset) give the same result; an unknown name is reported
-SameResult == \A t \in Spellings : Infoset(t) = Infoset(sp) /\ sp.entity # "unknown-name" /\ sp.lookalike = "none" => Result(t) = Result(sp)
+\* (every spelling with the infoset of Base gives Base's result: by transitivity any two of them agree - cheaper than quantifying
+\*  over all pairs)
+SameResult == Infoset(sp) = Infoset(Base) /\ sp.entity # "unknown-name" /\ sp.lookalike = "none" => Result(sp) = Result(Base)
 KnownNamesResolve == sp.entity \in Entities => Result(sp).err = "" /\ Result(sp).char = "the-character"
 UnknownNameIsReported == sp.entity = "unknown-name" => Result(sp).err = "No entity named"
 TextIsKept == sp.entity \in Entities /\ Result(sp).err = "" => Result(sp).text = sp.lookalike          \* refuted: text that looks like a MathJax class is deleted
